@@ -12,6 +12,10 @@ use crate::keyf::KeyF;
 pub fn builtin_set_member(x: Thunk<Val>, arr: ArrValue, #[default] keyF: KeyF) -> Result<bool> {
 	let mut low = 0;
 	let mut high = arr.len();
+	if high == 0 {
+		// Nothing to compare `x` with
+		return Ok(false);
+	}
 
 	let x = keyF.eval(x)?;
 
@@ -27,36 +31,70 @@ pub fn builtin_set_member(x: Thunk<Val>, arr: ArrValue, #[default] keyF: KeyF) -
 	Ok(false)
 }
 
+/// One input of a two-pointer merge: the position reached in it, and the key of the element at
+/// that position once it was needed for a comparison.
+struct MergeSide<'a> {
+	arr: ArrValue,
+	pos: usize,
+	key: Option<Val>,
+	keyf: &'a KeyF,
+}
+impl<'a> MergeSide<'a> {
+	fn new(arr: ArrValue, keyf: &'a KeyF) -> Self {
+		Self {
+			arr,
+			pos: 0,
+			key: None,
+			keyf,
+		}
+	}
+	fn is_empty(&self) -> bool {
+		self.pos >= self.arr.len()
+	}
+	/// Key of the current element, `keyF` is called at most once per element.
+	fn key(&mut self) -> Result<&Val> {
+		if self.key.is_none() {
+			let cur = self.arr.get_lazy(self.pos).expect("not empty");
+			self.key = Some(self.keyf.eval(cur)?);
+		}
+		Ok(self.key.as_ref().expect("just set"))
+	}
+	fn next(&mut self) -> Thunk<Val> {
+		let cur = self.arr.get_lazy(self.pos).expect("not empty");
+		self.pos += 1;
+		self.key = None;
+		cur
+	}
+	/// `arr[pos:]`, without calling `keyF`
+	fn rest(self) -> impl Iterator<Item = Thunk<Val>> {
+		(self.pos..self.arr.len()).map(move |i| self.arr.get_lazy(i).expect("in bounds"))
+	}
+}
+
+/// `keyF(a[i])` compared with `keyF(b[j])`; only called while both sides have an element, what is
+/// left of one side when the other runs out is never looked at.
+fn compare_heads(a: &mut MergeSide<'_>, b: &mut MergeSide<'_>) -> Result<Ordering> {
+	evaluate_compare_op(a.key()?, b.key()?, BinaryOpType::Lt)
+}
+
 #[builtin]
-#[allow(non_snake_case, clippy::redundant_closure)]
+#[allow(non_snake_case)]
 pub fn builtin_set_inter(a: ArrValue, b: ArrValue, #[default] keyF: KeyF) -> Result<ArrValue> {
-	let mut a = a.iter_lazy();
-	let mut b = b.iter_lazy();
-
-	let keyF = |v| keyF.eval(v);
-
-	let mut av = a.next();
-	let mut bv = b.next();
-	let mut ak = av.clone().map(keyF).transpose()?;
-	let mut bk = bv.map(keyF).transpose()?;
+	let mut a = MergeSide::new(a, &keyF);
+	let mut b = MergeSide::new(b, &keyF);
 
 	let mut out = Vec::new();
-	while let (Some(ac), Some(bc)) = (&ak, &bk) {
-		match evaluate_compare_op(ac, bc, BinaryOpType::Lt)? {
+	while !a.is_empty() && !b.is_empty() {
+		match compare_heads(&mut a, &mut b)? {
 			Ordering::Less => {
-				av = a.next();
-				ak = av.clone().map(keyF).transpose()?;
+				a.next();
 			}
 			Ordering::Greater => {
-				bv = b.next();
-				bk = bv.map(keyF).transpose()?;
+				b.next();
 			}
 			Ordering::Equal => {
-				out.push(av.clone().expect("ak != None => av != None"));
-				av = a.next();
-				ak = av.clone().map(keyF).transpose()?;
-				bv = b.next();
-				bk = bv.map(keyF).transpose()?;
+				out.push(a.next());
+				b.next();
 			}
 		}
 	}
@@ -64,95 +102,53 @@ pub fn builtin_set_inter(a: ArrValue, b: ArrValue, #[default] keyF: KeyF) -> Res
 }
 
 #[builtin]
-#[allow(non_snake_case, clippy::redundant_closure)]
+#[allow(non_snake_case)]
 pub fn builtin_set_diff(a: ArrValue, b: ArrValue, #[default] keyF: KeyF) -> Result<ArrValue> {
-	let mut a = a.iter_lazy();
-	let mut b = b.iter_lazy();
-
-	let keyF = |v| keyF.eval(v);
-
-	let mut av = a.next();
-	let mut bv = b.next();
-	let mut ak = av.clone().map(keyF).transpose()?;
-	let mut bk = bv.map(keyF).transpose()?;
+	let mut a = MergeSide::new(a, &keyF);
+	let mut b = MergeSide::new(b, &keyF);
 
 	let mut out = Vec::new();
-	while let (Some(ac), Some(bc)) = (&ak, &bk) {
-		match evaluate_compare_op(ac, bc, BinaryOpType::Lt)? {
+	while !a.is_empty() && !b.is_empty() {
+		match compare_heads(&mut a, &mut b)? {
 			Ordering::Less => {
 				// In a, but not in b
-				out.push(av.clone().expect("ak != None"));
-				av = a.next();
-				ak = av.clone().map(keyF).transpose()?;
+				out.push(a.next());
 			}
 			Ordering::Greater => {
-				bv = b.next();
-				bk = bv.map(keyF).transpose()?;
+				b.next();
 			}
 			Ordering::Equal => {
-				av = a.next();
-				ak = av.clone().map(keyF).transpose()?;
-				bv = b.next();
-				bk = bv.map(keyF).transpose()?;
+				a.next();
+				b.next();
 			}
 		}
 	}
-	while let Some(_ac) = &ak {
-		// In a, but not in b
-		out.push(av.clone().expect("ak != None"));
-		av = a.next();
-		ak = av.clone().map(keyF).transpose()?;
-	}
+	// In a, but not in b
+	out.extend(a.rest());
 	Ok(ArrValue::lazy(out))
 }
 
 #[builtin]
-#[allow(non_snake_case, clippy::redundant_closure)]
+#[allow(non_snake_case)]
 pub fn builtin_set_union(a: ArrValue, b: ArrValue, #[default] keyF: KeyF) -> Result<ArrValue> {
-	let mut a = a.iter_lazy();
-	let mut b = b.iter_lazy();
-
-	let keyF = |v| keyF.eval(v);
-
-	let mut av = a.next();
-	let mut bv = b.next();
-	let mut ak = av.clone().map(keyF).transpose()?;
-	let mut bk = bv.clone().map(keyF).transpose()?;
+	let mut a = MergeSide::new(a, &keyF);
+	let mut b = MergeSide::new(b, &keyF);
 
 	let mut out = Vec::new();
-	while let (Some(ac), Some(bc)) = (&ak, &bk) {
-		match evaluate_compare_op(ac, bc, BinaryOpType::Lt)? {
-			Ordering::Less => {
-				out.push(av.clone().expect("ak != None"));
-				av = a.next();
-				ak = av.clone().map(keyF).transpose()?;
-			}
-			Ordering::Greater => {
-				out.push(bv.clone().expect("bk != None"));
-				bv = b.next();
-				bk = bv.clone().map(keyF).transpose()?;
-			}
+	while !a.is_empty() && !b.is_empty() {
+		match compare_heads(&mut a, &mut b)? {
+			Ordering::Less => out.push(a.next()),
+			Ordering::Greater => out.push(b.next()),
 			Ordering::Equal => {
 				// NOTE: order matters, values in `a` win
-				out.push(av.clone().expect("ak != None"));
-				av = a.next();
-				ak = av.clone().map(keyF).transpose()?;
-				bv = b.next();
-				bk = bv.clone().map(keyF).transpose()?;
+				out.push(a.next());
+				b.next();
 			}
 		}
 	}
 	// a.len() > b.len()
-	while let Some(_ac) = &ak {
-		out.push(av.clone().expect("ak != None"));
-		av = a.next();
-		ak = av.clone().map(keyF).transpose()?;
-	}
+	out.extend(a.rest());
 	// b.len() > a.len()
-	while let Some(_bc) = &bk {
-		out.push(bv.clone().expect("ak != None"));
-		bv = b.next();
-		bk = bv.clone().map(keyF).transpose()?;
-	}
+	out.extend(b.rest());
 	Ok(ArrValue::lazy(out))
 }
